@@ -176,7 +176,7 @@ def _c15_cov(rs):
     return {"states": max(1, _sum(rs, "distinct_signatures")), "transitions": _sum(rs, "parses"), "traces_validated_against_impl": hist,
             "distinct_nontrivial": _sum(rs, "final_rejected") + _sum(rs, "final_with_validity_errors") + _sum(rs, "instances_invalid") + _sum(rs, "handler_exceptions_thrown"),
             "nonvacuity": {k: _sum(rs, k) for k in ("final_accepted", "final_rejected", "final_with_validity_errors", "handler_exceptions_thrown", "documents_adopted",
-                                                     "adopted_documents_rechecked", "instances_valid", "instances_invalid", "locked_pool_checks", "growth_histories", "schema_reuse_histories")},
+                                                     "adopted_documents_rechecked", "instances_valid", "instances_invalid", "locked_pool_checks", "growth_histories", "schema_reuse_histories", "cache_switch_histories")},
             "explanation": "states = distinct abstract reference-model states (final configuration x API) reached; transitions = operations executed on real parser objects; "
                            "traces = complete histories, each executed on a long-lived parser and compared with a freshly constructed one"}
 
@@ -197,7 +197,10 @@ CHECKS["C15"] = dict(
          "of every document must equal the parse by a fresh parser. Schema-reuse space: the same for 23 schema-validated documents over one schema (70-attribute complex type, "
          "unique/key/keyref incl. 90 keys in a nested scope, xsi:nil, xsi:type, substitution group, lax wildcard into a known / unknown namespace, defaults, lists, 70 IDs, 40 levels, "
          "an undeclared element, and three documents that end - parse abandoned - inside a nilled element, inside a key scope, inside a 65-attribute start tag) x {IGXMLScanner, SGXMLScanner} x "
-         "3 cache regimes; quick: every history of <= 1 prior parse (API rotating with the history index), thorough: <= 1 under all 3 APIs and <= 2 with cacheGrammarFromParse.",
+         "3 cache regimes; quick: every history of <= 1 prior parse (API rotating with the history index), thorough: <= 1 under all 3 APIs and <= 2 with cacheGrammarFromParse. "
+         "Cache-switch space: every sequence of <= 3 (thorough 4) operations over {cacheGrammarFromParse on/off, useCachedGrammarInParse on/off, resetCachedGrammarPool, loadGrammar(s1, toCache), "
+         "parse(D1 naming s1.xsd), parse(D2 naming s2.xsd - another schema document for the SAME namespace), parse(plain)} x 3 APIs x {IG, SG}, followed by parse(D1|D2); a small reference "
+         "model of the documented lookup order says which grammar is in force, and the outcome must equal that of a fresh parser given exactly that grammar.",
     trusted_base=["clang 14 ASan/UBSan"],
     assumptions=["when a cached DTD grammar is used, declaration events and the DOM doctype's entity map are not replayed by design; they are projected away (the property names verdicts, defaults and type information)"],
     coverage=_c15_cov,
@@ -206,13 +209,15 @@ CHECKS["C15"] = dict(
                _hx("histories-depth2-6docs", "--space", "hist", "--depth", 2, "--opdocs", 6),
                _hx("cache-transparency", "--space", "cache"),
                _hx("table-growth-histories-depth2", "--space", "growth", "--depth", 2),
-               _hx("schema-reuse-histories-depth1", "--space", "schema", "--depth", 1, "--rotate", 1)],
+               _hx("schema-reuse-histories-depth1", "--space", "schema", "--depth", 1, "--rotate", 1),
+               _hx("grammar-cache-switch-histories-depth3", "--space", "toggle", "--depth", 3)],
         thorough=[_hx("histories-depth2", "--space", "hist", "--depth", 2),
                   _hx("histories-depth3-3docs", "--space", "hist", "--depth", 3, "--opdocs", 3),
                   _hx("cache-transparency", "--space", "cache"),
                   _hx("table-growth-histories-depth3", "--space", "growth", "--depth", 3),
                   _hx("schema-reuse-histories-depth1-all-apis", "--space", "schema", "--depth", 1),
-                  _hx("schema-reuse-histories-depth2-cached", "--space", "schema", "--depth", 2, "--rotate", 1, "--caches", "1")],
+                  _hx("schema-reuse-histories-depth2-cached", "--space", "schema", "--depth", 2, "--rotate", 1, "--caches", "1"),
+                  _hx("grammar-cache-switch-histories-depth4", "--space", "toggle", "--depth", 4)],
     ),
     manifest=dict(technique="exhaustive enumeration of operation histories up to a depth on long-lived real parser objects, each compared with a fresh parser (reference model = configuration tracking)",
                   text="All histories within the depth bound are executed on the real parser; hidden state is exactly what is under test, so no state merging is done on the implementation side."),
